@@ -674,13 +674,17 @@ func init() {
 				th = th.Sub(th, toBig(int64(1)))
 				src = fmt.Sprintf("((draw v %s) (if (lt v %s) (fatal 1)))", k.gen, th1)
 			}
+			if i%3 == 2 {
+				// the same property failing by a panic whose value names the drawn number (another value at every step)
+				src = strings.Replace(src, "(fatal 1)", "(panicv 1 v)", 1)
+			}
 			fl := baseFlags()
 			fl.Checks = 1000
 			fl.Seed = r.u64() | 1
 			run := runCheckTB(mustSX(src), fl, "c12", nil)
 			kind, _, _ := verdictMsg(run.verdict)
 			m.tag("int-" + k.name)
-			if kind != "failed" {
+			if kind != "failed" && kind != "panic" {
 				m.tag("int-not-falsified")
 				m.eval(src+fmt.Sprint(fl.Seed), false)
 				continue
